@@ -334,6 +334,13 @@ fn c04_cases(tier: Tier) -> Vec<(C04Case, usize)> {
             v.push((C04Case { chain: vec![a, b], readers: 1, dumps: 2 }, if tier == Tier::Quick { 2 } else { 3 }));
         }
     }
+    // chains of three commits against one reader at two preemptions: a reader that begins in the
+    // middle of the first commit and stays open across the next two
+    if tier == Tier::Quick {
+        for chain in [vec![0, 3, 5], vec![5, 2, 3], vec![1, 0, 2], vec![2, 5, 3]] {
+            v.push((C04Case { chain, readers: 1, dumps: 2 }, 2));
+        }
+    }
     // asymmetric chains of three, two readers
     v.push((C04Case { chain: vec![0, 3, 5], readers: 2, dumps: 2 }, if tier == Tier::Quick { 1 } else { 2 }));
     v.push((C04Case { chain: vec![5, 2, 3], readers: 2, dumps: 2 }, if tier == Tier::Quick { 1 } else { 2 }));
